@@ -316,6 +316,9 @@ def run(chk):
     n_unit, distinct_unit = c17_gate.run_units(chk, build, factor)
     n_gate += n_unit
     distinct_gate |= distinct_unit
+    n_tcp, distinct_tcp = c17_gate.run_tcp(chk, build, factor)
+    n_gate += n_tcp
+    distinct_gate |= distinct_tcp
 
     chk.coverage["traces_validated_against_impl"] = n_fsm + n_gate
     chk.coverage["distinct_nontrivial"] = len(distinct) + len(distinct_gate)
